@@ -7,7 +7,8 @@ PROPERTY_ID = "C08"
 RULE = ("programs Hmac::new(digest, key); input(chunk)*; raw_result | result().code() | output_bytes for all 16 fixed legacy digests plus BLAKE2b outlen "
         "{1,20,32,64} and BLAKE2s {1,16,32}: key length {0,1,B-1,B,B+1,2B+5} x 2 key patterns x message length {0,1,B-1,B,B+1,2B+3} x chunking "
         "(one call, 2-splits at {1,B-1,B,B+1}) and every sequence of <= 3 chunks over {0,1,B-1,B,B+1,2B+1} for two keys, every key length 0..=2B+5 (thorough: all digests, and every 4-chunk sequence); oracle = RFC 2104 over the "
-        "reference hashes (equal to python's hmac module wherever hashlib has the digest); non-trivial = non-empty key or message")
+        "reference hashes (equal to python's hmac module wherever hashlib has the digest); non-trivial = non-empty key or message"
+        " Also: every key length 0..=2B+5 and every message length 0..=2B+9 for every digest; single calls of 5..20 whole blocks (-1/0/+1) and keys of 3..13 blocks; reset before any input / after abandoned input / after a result; Hmac built over digest objects with a past that were reset through their public interface (fed; fed and finalised; BLAKE2 created keyed or re-keyed, then reset); one 2^29-byte message for SHA-1, SHA-256, SHA-512, RIPEMD-160; the corpus again on the checked-arithmetic build and (SHA-256 / BLAKE2 digests) on the vector builds.")
 ASSUMPTIONS = ["reference hashes as in C01", "RFC 2104 construction in python, cross-checked against the hmac module for 12 digests and RFC 4231 #2",
                "HMAC block size for SHA-3/Keccak is the sponge rate (what the legacy digest objects report, and what hashlib uses)"]
 
